@@ -14,6 +14,7 @@ EXPLANATION = (
     "propagate in that order to the expression and to every definition), PHASE (unreachable!() arms are discharged). "
     "NOT decided: correctness of nullable/firstpos/lastpos/followpos as set equations, of the subset construction, of interning; "
     "language equivalence for all word sequences."
+    " PREC: no parser function that builds a Fallback / Alternative / Sequence node reaches itself through the expression parsers without a bracketed construct in between (`a || b || c` is one group with levels 0, 1, 2). INTERN-EQ field clause shared with C09."
 )
 ASSUMPTIONS = [
     "rustc accepts the tree (match exhaustiveness, types); the syntax view equals the compiled program for non-macro code",
